@@ -39,3 +39,39 @@ contract("usim._primitives.concurrent_exception.MetaConcurrent.__instancecheck__
                   "    (typeof(instance).specialisations is not None and "
                   "     Match(cls.specialisations, cls.inclusive, typeof(instance).specialisations)))))"],
          modifies=[], pure=True, no_invariants=True, props=["C17"])
+
+
+# ---------------------------------------------------------------------------------------------------- flattened() (C17)
+# leaves(c): the non-Concurrent exceptions below c, depth first, left to right.  Defined by structural recursion over the
+# (immutable) children tuples; the solver cannot unfold such a definition by itself, so it is given as an uninterpreted
+# function with its defining equations:  off(c, i) = number of leaves contributed by children[0..i).
+from contracts import context as _ctx   # noqa: F401  (model of Concurrent)
+
+IS_C = "isinstance(c.children[i], Concurrent)"
+LEAVES_AXIOMS = [
+    "forall(Concurrent, lambda c: lv_off(c, 0) == 0 and lv_n(c) == lv_off(c, len(c.children)) and lv_n(c) >= 0)",
+    "forall(Concurrent, lambda c: forall(int, lambda i: implies(0 <= i and i < len(c.children), "
+    "       lv_off(c, i + 1) == lv_off(c, i) + ite(%s, lv_n(c.children[i]), 1) and lv_off(c, i) >= 0)))" % IS_C,
+    "forall(Concurrent, lambda c: forall(int, lambda i, k: implies(0 <= i and i < len(c.children) and lv_off(c, i) <= k and k < lv_off(c, i + 1), "
+    "       lv_at(c, k) is ite(%s, lv_at(c.children[i], k - lv_off(c, i)), c.children[i]))))" % IS_C,
+    # consequence of the equations by induction on i (not mechanised): without nested Concurrent the offsets are the indices
+    "forall(Concurrent, lambda c: implies(forall(int, lambda i: implies(0 <= i and i < len(c.children), not %s)), "
+    "       forall(int, lambda i: implies(0 <= i and i <= len(c.children), lv_off(c, i) == i))))" % IS_C,
+]
+spec_uninterpreted("lv_n", [("c", ANY)], INT, axioms=LEAVES_AXIOMS)
+spec_uninterpreted("lv_at", [("c", ANY), ("k", INT)], ANY, axioms=LEAVES_AXIOMS)
+spec_uninterpreted("lv_off", [("c", ANY), ("i", INT)], INT, axioms=LEAVES_AXIOMS)
+
+contract("usim._primitives.concurrent_exception.Concurrent.flattened",
+         params={"self": REF("Concurrent")}, returns=REF("Concurrent"),
+         # interpreter fact about the class object: the bare template `Concurrent` is not a specialisation
+         assume_entry=["Concurrent.specialisations is None"],
+         # flattened() preserves the leaf exceptions and their order
+         ensures=["len(result.children) == lv_n(self)",
+                  "forall(int, lambda k: implies(0 <= k and k < lv_n(self), result.children[k] is lv_at(self, k)))"],
+         loop_invariants={"for#1": [
+             "len(leafs) == lv_off(self, _i)",
+             "forall(int, lambda k: implies(0 <= k and k < lv_off(self, _i), leafs[k] is lv_at(self, k)))"]},
+         modifies=["Concurrent.children", "Concurrent.__cause__", "Concurrent.__context__"], check_frame=False,
+         no_invariants=True, chain_ensures=True,
+         props=["C17"])
